@@ -3,6 +3,7 @@ import Toq.Spec.Entangle
 import Toq.Proofs.Idx
 import Toq.Proofs.Perms
 import Toq.Properties.C01
+import Toq.Proofs.Cert
 import Mathlib.Tactic.Ring
 import Mathlib.Tactic.Linarith
 import Mathlib.Algebra.BigOperators.Group.Finset.Basic
@@ -150,5 +151,141 @@ theorem toM_ampMat_kronApply {α : Type} [CommSemiring α] (dA dB dA' dB' : Nat)
   apply Finset.sum_congr rfl
   intro a' _
   rw [sumN_eq_fin]
+
+end Toq.Entangle
+
+namespace Toq.Entangle
+open Matrix
+open scoped ComplexOrder MatrixOrder Kronecker
+
+/-! ### planted amplitude matrices, square roots, lists -/
+
+theorem pT_pure_gram {m n : Type} [Fintype m] [Fintype n] (A : Matrix m n ℂ) :
+    (pT (pureOfAmp A))ᴴ * pT (pureOfAmp A) = (A * Aᴴ) ⊗ₖ (Aᴴ * A) := by
+  ext ⟨a, b⟩ ⟨a', b'⟩
+  rw [Matrix.mul_apply, Fintype.sum_prod_type]
+  simp only [Matrix.conjTranspose_apply, pT, pureOfAmp, Matrix.kroneckerMap_apply, Matrix.mul_apply, star_mul', star_star]
+  rw [Finset.sum_mul_sum, Finset.sum_comm]
+  apply Finset.sum_congr rfl; intro c _
+  apply Finset.sum_congr rfl; intro d _
+  ring
+
+theorem planted_conjTranspose (dA dB : Nat) (s : Nat → ℂ) :
+    (planted dA dB s)ᴴ = planted dB dA (fun i => star (s i)) := by
+  ext b a
+  simp only [Matrix.conjTranspose_apply, planted]
+  by_cases h : a.val = b.val
+  · simp [h]
+  · have h' : ¬ b.val = a.val := fun e => h e.symm
+    simp [h, h']
+
+theorem planted_mul_ct (dA dB : Nat) (s : Nat → ℂ) :
+    planted dA dB s * (planted dA dB s)ᴴ
+      = Matrix.diagonal (fun a : Fin dA => if a.val < dB then s a.val * star (s a.val) else 0) := by
+  ext a a'
+  rw [Matrix.mul_apply, Matrix.diagonal_apply]
+  simp only [planted, Matrix.conjTranspose_apply]
+  by_cases haa : a = a'
+  · subst haa
+    simp only [if_true]
+    by_cases hlt : a.val < dB
+    · rw [Finset.sum_eq_single (⟨a.val, hlt⟩ : Fin dB)]
+      · simp [hlt]
+      · intro b _ hb
+        have : a.val ≠ b.val := fun e => hb (Fin.ext e.symm)
+        simp [this]
+      · intro h; exact absurd (Finset.mem_univ _) h
+    · rw [if_neg hlt]
+      apply Finset.sum_eq_zero
+      intro b _
+      have : a.val ≠ b.val := fun e => hlt (e ▸ b.isLt)
+      simp [this]
+  · rw [if_neg haa]
+    apply Finset.sum_eq_zero
+    intro b _
+    by_cases h1 : a.val = b.val
+    · have : a'.val ≠ b.val := fun e => haa (Fin.ext (h1.trans e.symm))
+      simp [this]
+    · simp [h1]
+
+theorem planted_ct_mul (dA dB : Nat) (s : Nat → ℂ) :
+    (planted dA dB s)ᴴ * planted dA dB s
+      = Matrix.diagonal (fun b : Fin dB => if b.val < dA then star (s b.val) * s b.val else 0) := by
+  have := planted_mul_ct dB dA (fun i => star (s i))
+  rw [planted_conjTranspose dB dA] at this
+  rw [planted_conjTranspose dA dB]
+  simpa using this
+
+theorem sum_fin_lt (n k : Nat) (f : Nat → ℝ) :
+    (∑ a : Fin n, if a.val < k then f a.val else 0) = ∑ i ∈ Finset.range (min n k), f i := by
+  rw [Fin.sum_univ_eq_sum_range (fun i => if i < k then f i else 0) n, ← Finset.sum_filter]
+  congr 1
+  ext i
+  simp [Finset.mem_filter]
+
+/-- one side of the planted computation: `U·diag(d)·Uᴴ` is a PSD square root of `U·diag(d²)·Uᴴ` with trace `Σ d` -/
+theorem unitary_diag_sqrt {k : Nat} (U : Matrix (Fin k) (Fin k) ℂ) (hU : Uᴴ * U = 1) (d : Fin k → ℝ) (hd : ∀ i, 0 ≤ d i) :
+    (U * Matrix.diagonal (fun i => (d i : ℂ)) * Uᴴ).PosSemidef ∧
+    (U * Matrix.diagonal (fun i => (d i : ℂ)) * Uᴴ) * (U * Matrix.diagonal (fun i => (d i : ℂ)) * Uᴴ)
+      = U * Matrix.diagonal (fun i => ((d i : ℂ) * (d i : ℂ))) * Uᴴ ∧
+    (U * Matrix.diagonal (fun i => (d i : ℂ)) * Uᴴ).trace = ((∑ i, d i : ℝ) : ℂ) := by
+  refine ⟨?_, ?_, ?_⟩
+  · have hD : (Matrix.diagonal (fun i => (d i : ℂ))).PosSemidef := by
+      rw [Matrix.posSemidef_diagonal_iff]; intro i; exact_mod_cast hd i
+    exact hD.mul_mul_conjTranspose_same U
+  · calc (U * Matrix.diagonal (fun i => (d i : ℂ)) * Uᴴ) * (U * Matrix.diagonal (fun i => (d i : ℂ)) * Uᴴ)
+        = U * Matrix.diagonal (fun i => (d i : ℂ)) * (Uᴴ * U) * Matrix.diagonal (fun i => (d i : ℂ)) * Uᴴ := by
+          simp only [Matrix.mul_assoc]
+      _ = U * (Matrix.diagonal (fun i => (d i : ℂ)) * Matrix.diagonal (fun i => (d i : ℂ))) * Uᴴ := by
+          rw [hU]; simp only [Matrix.mul_one, Matrix.mul_assoc]
+      _ = _ := by rw [Matrix.diagonal_mul_diagonal]
+  · rw [Matrix.trace_mul_cycle, hU, Matrix.one_mul, Matrix.trace_diagonal]
+    push_cast; rfl
+
+theorem sublist_sum_le_take (l : List Rat) (hs : l.Pairwise (fun a b => b ≤ a)) (h0 : ∀ x ∈ l, 0 ≤ x) :
+    ∀ (k : Nat) (t : List Rat), t.Sublist l → t.length ≤ k → t.sum ≤ (l.take k).sum := by
+  induction l with
+  | nil =>
+    intro k t ht _
+    rw [List.sublist_nil.mp ht]; simp
+  | cons x l' ih =>
+    have hs' := (List.pairwise_cons.mp hs)
+    have h0' : ∀ y ∈ l', 0 ≤ y := fun y hy => h0 y (List.mem_cons_of_mem _ hy)
+    have hx : 0 ≤ x := h0 x (List.mem_cons_self)
+    intro k t ht hk
+    cases k with
+    | zero =>
+      have : t = [] := List.eq_nil_of_length_eq_zero (Nat.le_zero.mp hk)
+      rw [this]; simp
+    | succ k =>
+      rw [List.take_succ_cons, List.sum_cons]
+      cases ht with
+      | cons _ ht' =>
+        -- x skipped
+        cases t with
+        | nil => simp; exact add_nonneg hx (List.sum_nonneg (fun y hy => h0' y (List.mem_of_mem_take hy)))
+        | cons y t'' =>
+          have hy : y ≤ x := hs'.1 y (ht'.subset List.mem_cons_self)
+          have ht'' : t''.Sublist l' := (List.sublist_cons_self y t'').trans ht'
+          have := ih hs'.2 h0' k t'' ht'' (by simpa using hk)
+          rw [List.sum_cons]; linarith
+      | cons_cons _ ht' =>
+        rw [List.sum_cons]
+        have := ih hs'.2 h0' k _ ht' (by simpa using hk)
+        linarith
+
+theorem sumQ_eq_sum (l : List Rat) : sumQ l = l.sum := by
+  unfold sumQ
+  rw [List.sum_eq_foldl]
+
+theorem norm_det_of_unitary {n : Type} [Fintype n] [DecidableEq n] (U : Matrix n n ℂ) (hU : Uᴴ * U = 1) : ‖U.det‖ = 1 := by
+  have h : star U.det * U.det = 1 := by rw [← Matrix.det_conjTranspose, ← Matrix.det_mul, hU, Matrix.det_one]
+  have h2 : ‖U.det‖ * ‖U.det‖ = 1 := by
+    have := congrArg norm h
+    rwa [norm_mul, norm_star, norm_one] at this
+  rcases mul_self_eq_one_iff.mp h2 with h3 | h3
+  · exact h3
+  · have := norm_nonneg U.det; linarith
+
 
 end Toq.Entangle
